@@ -40,6 +40,10 @@ import disgen  # noqa: E402
 ID = 'C08'
 LEAN_MODULES = ['Py65.Props.C08', disgen.GENEQ_MODULE, 'Py65.Props.C08g'] + ac.ASM_GEN_MODULES + ['Py65.Props.C08ga']
 NAMESPACES = ['Py65.Props.C08', 'Py65.Props.C08g', disgen.GENEQ_NAMESPACE, 'Py65.Proofs.AsmGenEq', 'Py65.Props.C08ga']
+# library helpers (CPython behaviour modelled in lean/Py65/Model/*Rt*.lean ...) that the generated code of these
+# modules calls, derived by scanning the Lean sources (harness/rtscan.py); validated against CPython on every run
+import rtcheck  # noqa: E402
+RT_HELPERS = rtcheck.helpers_for(LEAN_MODULES)
 LEVEL = 'proof'
 USES_GEN = True
 EXPECTED_THEOREMS = ['Py65.Props.C08.roundtrip', 'Py65.Props.C08.roundtrip_exact', 'Py65.Props.C08.spec_decode_encode',
